@@ -133,10 +133,11 @@ func (p *Prog) CallGraph() *callgraph.Graph {
 	return p.cg
 }
 
-// InModule reports whether fn is defined in a package of the analysed module.
+// InModule reports whether fn is defined in a package of the analysed module
+// (or in a positive-control package, which stands in for it).
 func InModule(fn *ssa.Function) bool {
 	pk := FnPkg(fn)
-	return pk != nil && (pk.Path() == Mod || strings.HasPrefix(pk.Path(), Mod+"/"))
+	return pk != nil && (pk.Path() == Mod || strings.HasPrefix(pk.Path(), Mod+"/") || strings.HasPrefix(pk.Path(), "gosqlxsa/controls/"))
 }
 
 // FnPkg is the types.Package a function (or its outermost parent) belongs to.
